@@ -187,7 +187,7 @@ def o_file(a):
             src.polarization_degree = constant(a['pd'])
         irf = a.get('irf')            # a response set other than the default: the file records it (IRFNAME) and the analysis, left to its defaults, uses that one
         simdrive.simulate(cfg, path, du_id=a['du'], seed=a['seed'], roi_model=roi, duration=a['duration'], **(dict(emin=band[0], emax=band[1]) if band else {}),
-                          **(dict(irfname=irf) if irf else {}))
+                          **(dict(irfname=irf) if irf else {}), **(dict(lv1a=True) if a.get('lv1a') else {}))
         with fits.open(path) as h:
             ev = h['EVENTS'].data
             phi, q, u = (numpy.array(ev[k], dtype=float) for k in ('PHI', 'Q', 'U'))
@@ -196,6 +196,16 @@ def o_file(a):
         with fits.open(o) as h:
             r = h[1].data
             pd, pde, pa, pae = float(r['PD'][0]), float(r['PD_ERR'][0]), float(r['PA'][0]), float(r['PA_ERR'][0])
+        eqp = []
+        if a.get('eqp'):
+            # the same closure bin by bin with equipopulated energy bins on a file already restricted to the band (every event inside the bounds)
+            from ixpeobssim.bin.xpselect import xpselect, PARSER as SPARSER
+            sel = xpselect(**SPARSER.parse_args([path, '--emin', '2.', '--emax', '8.', '--overwrite', 'True']).__dict__)[0]
+            o2 = xpbin(**PARSER.parse_args([sel, '--overwrite', 'True', '--algorithm', 'PCUBE', '--ebinalg', 'EQP', '--ebins', '3', '--emin', '2.', '--emax', '8.'] + (
+                [] if irf else ['--irfname', 'ixpe:obssim20240101:v13'])).__dict__)[0]
+            with fits.open(o2) as h:
+                r = h[1].data
+                eqp = [(float(r['ENERG_LO'][i]), float(r['ENERG_HI'][i]), float(r['PD'][i]), float(r['PD_ERR'][i]), float(r['PA'][i]), float(r['PA_ERR'][i])) for i in range(len(r))]
     bad = []
     if numpy.abs(q - 2 * numpy.cos(2 * phi)).max() > 1e-5 or numpy.abs(u - 2 * numpy.sin(2 * phi)).max() > 1e-5:
         bad.append('Q, U columns are not 2cos 2PHI, 2 sin 2PHI')
@@ -209,6 +219,9 @@ def o_file(a):
     dpa = (pa - pa0 + 90.) % 180. - 90.
     if abs(dpa) > 6.5 * pae:
         bad.append('PA = %.2f ± %.2f deg, input %.2f' % (pa, pae, pa0))
+    for lo, hi, pd_, pde_, pa_, pae_ in eqp:
+        if abs(pd_ - pd0) > 6.5 * pde_ or abs((pa_ - pa0 + 90.) % 180. - 90.) > 6.5 * pae_:
+            bad.append('equipopulated bin %.2f–%.2f keV: PD = %.4f ± %.4f, PA = %.2f ± %.2f deg, input %.4f, %.2f' % (lo, hi, pd_, pde_, pa_, pae_, pd0, pa0))
     return not bad, dict(violated=bad, PD=pd, PD_ERR=pde, PA=pa, PA_ERR=pae, input=[pd0, pa0], events=len(phi))
 
 
@@ -344,7 +357,8 @@ def explore(chk, budget=1):
     run_oracle(chk, 'multi', dict(T=3000., du=int(g.integers(1, 4)), seed=int(g.integers(1, 10 ** 6))))
     run_oracle(chk, 'file', dict(du=int(g.integers(1, 4)), seed=int(g.integers(1, 10 ** 6)), duration=1500. if quick else 6000.))
     for irf in (names[1:2] if quick else names[1:]):
-        run_oracle(chk, 'file', dict(du=int(g.integers(1, 4)), seed=int(g.integers(1, 10 ** 6)), duration=3000. if quick else 6000., irf=irf, pd=float(g.uniform(0.5, 0.9))))
+        run_oracle(chk, 'file', dict(du=int(g.integers(1, 4)), seed=int(g.integers(1, 10 ** 6)), duration=3000. if quick else 6000., irf=irf, pd=float(g.uniform(0.5, 0.9)), eqp=True))
+    run_oracle(chk, 'file', dict(du=int(g.integers(1, 4)), seed=int(g.integers(1, 10 ** 6)), duration=1500., pd=float(g.uniform(0.5, 0.9)), lv1a=True))       # pseudo-Lv1a files carry the same Q, U
 
 
 def main(chk):
